@@ -12,17 +12,8 @@ def lang_of_impl(spec_out, k):
 def run(ctx):
     quick = ctx.tier == "quick"
     ctx.build_go()
-    ctx.extract(["lexer", "tables", "specmaps"])
-    try:
-        ctx.prove("Emerge.Props.C01")
-        if not quick:
-            ctx.leanchecker("Emerge.Props.C01")
-    except Broken as b:
-        ctx.add_broken(b.what, b.detail)
-        ok, out = ctx.lake(["model"])
-        if not ok:
-            ctx.add_broken("model driver no longer builds", out[-2000:])
-            return ctx.finish(LEVEL, {"evaluations": 0, "distinct_nontrivial": 0, "samples": [], "explanation": "aborted"}, [])
+    if not ctx.prepare(["lexer", "tables", "specmaps"], "Emerge.Props.C01", quick):
+        return ctx.finish(LEVEL, {"evaluations": 0, "distinct_nontrivial": 0, "samples": [], "explanation": "aborted"}, [])
     cases = gen_cases(ctx, 700 if quick else 12000, defect_rate=0.1)
     texts = [c[1] for c in cases]
     impl, model = run_specs(ctx, texts)
@@ -32,7 +23,7 @@ def run(ctx):
     pending = []
     nacc, ncmp = 0, 0
     distinct = set()
-    for (tree, text, defects), i in zip(cases, impl):
+    for (tree, text, defects), i, mline in zip(cases, impl, model):
         if not i.startswith("OK"):
             continue
         nacc += 1
@@ -51,14 +42,16 @@ def run(ctx):
                 break
         distinct.add(text)
         if bad:
-            pending.append((tree, text, i, bad))
+            pending.append((tree, text, i, bad, same_as_model(text, i, mline)))
     # a disagreement is attributed to the recorded findings only if the model with those findings repaired
     # (Cfg.fixed: reserved prefix for synthesised names, separate keys for literals) yields the EBNF language
     if pending:
         fixed = ctx.run_model("specfixed", [hx(p[1]) for p in pending])
-        for (tree, text, i, bad), fx in zip(pending, fixed):
+        for (tree, text, i, bad, as_model), fx in zip(pending, fixed):
             explained = False
-            if fx.startswith("OK") and known:
+            # explained by F14/F2b only if the implementation does here exactly what the model of the code (which has those
+            # findings in it) does, and the model with exactly those findings repaired gives the EBNF language
+            if fx.startswith("OK") and known and as_model:
                 got = sg.cfg_languages(parse_ok(fx)["P"], K)
                 want = sg.ebnf_languages(tree, K)
                 wn = {h: {tuple((n if k == "tok" else '"' + n) for k, n in w) for w in ws} for h, ws in want.items()}
